@@ -192,6 +192,42 @@ def _repr(res, index):
         where = f"{fn.file}:{fn.lineno}"
         from ..astutil import returns as _returns
         rets = _returns(fn.node)          # returned expressions, looked through single-assignment temporaries
+        if len(rets) > 1:
+            # several templates, chosen by a test on the state: each one alone must rebuild the shape.  Decided here: a template
+            # that leaves out an optional constructor argument the constructor stores as geometric state (REPR-3), while another
+            # template of the same __repr__ prints it
+            tmpl = []
+            for (_rn, rexpr) in rets:
+                ps_ = _fstring_parts(rexpr)
+                if ps_ is None:
+                    tmpl = None
+                    break
+                t_ = "".join(p_ if isinstance(p_, str) else "\x00" for p_ in ps_)
+                m_ = re.fullmatch(r"coxeter\.shapes\.(\w+)\((.*)\)", t_, re.S)
+                if not m_ or m_.group(1) not in index.classes:
+                    tmpl = None
+                    break
+                tmpl.append((m_.group(1), set(re.findall(r"(\w+)=\x00", m_.group(2))), _rn))
+            if tmpl and len({c_ for (c_, _k, _n) in tmpl}) == 1:
+                pc_ = index.cls(tmpl[0][0])
+                init_ = pc_.lookup("__init__")
+                a_ = init_.node.args
+                pn_ = [x.arg for x in a_.args][1:]
+                optional_ = pn_[len(pn_) - len(a_.defaults):]
+                stored_ = _ctor_storage(index, pc_, assume_defaults=False)
+                allk = set().union(*[k_ for (_c, k_, _n) in tmpl])
+                hit = False
+                for (_c, k_, rn_) in tmpl:
+                    for p_ in optional_:
+                        attrs_ = {x_ for x_ in stored_.get(p_, set()) if ATTR.get(x_, (None, None))[1] in ("arr", "float")}
+                        if attrs_ and p_ in allk and p_ not in k_:
+                            hit = True
+                            res.bad("REPR-3", f"{label}:omits:{p_}:on-some-path", f"{fn.file}:{getattr(rn_, 'lineno', fn.lineno)}", f"{label} has a template that does not "
+                                    f"print `{p_}=` although {tmpl[0][0]}() stores it in {sorted(attrs_)}: on that path eval(repr(shape)) rebuilds the shape with the "
+                                    f"constructor's own {p_} (for a polygon: the normal of the first corner - the opposite one for clockwise vertices)")
+                if hit:
+                    continue
+            raise AnalysisError(f"REPR {label}: not a single return (outside the decided fragment)")
         if len(rets) != 1:
             raise AnalysisError(f"REPR {label}: not a single return (outside the decided fragment)")
         parts = _fstring_parts(rets[0][1])
